@@ -77,7 +77,7 @@ func (e *env[S, G]) FieldBridge(t *rapid.T) {
 }
 
 func TestFieldBridge(t *testing.T) {
-	vlib.Check(t, 600, func(t *rapid.T) { drawSuite(t).FieldBridge(t) })
+	vlib.Check(t, 1000, func(t *rapid.T) { drawSuite(t).FieldBridge(t) })
 }
 
 // ---- Polynomial.Eval, Derivative, LiftPolynomial -------------------------------------------
@@ -174,5 +174,5 @@ func (e *env[S, G]) PolyEval(t *rapid.T) {
 }
 
 func TestPolyEval(t *testing.T) {
-	vlib.Check(t, 800, func(t *rapid.T) { drawSuite(t).PolyEval(t) })
+	vlib.Check(t, 2000, func(t *rapid.T) { drawSuite(t).PolyEval(t) })
 }
